@@ -48,6 +48,12 @@ NPQ_KERNELS = [
          self_attrs=[("_CR", "VQ"), ("_pop_size", "N"), ("_t_CR", "S1")]),
     # minmax_scale (C11): module-level function of utils/transformations.py
     dict(name="Select_minmax_scale", file=T, cls=None, func="minmax_scale", params=[("data", "VQ")], ret="VQ"),
+    # SHADE._update_u_CR and SHAGA._update_u (C15): nested conditions with early returns ("branching mode": TrQM). In the rational reading no
+    # value is infinite: np.isinf is the constant False (NpQ.isinf / NpQ.visinf); lehmer_mean is a function parameter of its two arguments
+    dict(name="SHADE_update_u_CR", file="optimizers/_shade.py", cls="SHADE", func="_update_u_CR", params=[("u_CR", "S1"), ("S_CR", "VQ"), ("df", "VQ")], ret="S1",
+         branching=True),
+    dict(name="SHAGA_update_u", file="optimizers/_shaga.py", cls="SHAGA", func="_update_u", params=[("u", "S1"), ("S", "VQ"), ("df", "VQ")], ret="S1",
+         branching=True, ext_scalar_fn={"lehmer_mean": ("lehmerFn", ["x", "weight"])}),
     # coefficient_determination (C19), floats read as rationals; the literal 1e-10 is read as 1/10^10
     dict(name="Metrics_r2", file="utils/_metrics.py", cls=None, func="coefficient_determination", params=[("y_true", "VQ"), ("y_predict", "VQ")], ret="S1"),
     # the mean squared error inside root_mean_square_error (C19): everything before the square root, which must still be taken of it
@@ -335,10 +341,12 @@ class TrQ:
         self.n = 0
         self.draws = 0
 
+    ind = "  "
+
     def bind(self, expr):
         self.n += 1
         t = f"t{self.n}"
-        self.lines.append(f"  let {t} ← {expr}")
+        self.lines.append(f"{self.ind}let {t} ← {expr}")
         return t
 
     @staticmethod
@@ -428,7 +436,7 @@ class TrQ:
                 return self.bind(f"NpQ.v{f.attr} {x}"), "S1"
             if isinstance(f, ast.Attribute) and f.attr == "astype" and len(e.args) == 1 and ast.unparse(e.args[0]) == "np.float64" and not kw:
                 x, k = self.E(f.value)
-                if k != "VQ":
+                if k not in ("VQ", "MBQ"):
                     raise NotRecognised("astype of a non-vector")
                 return x, "VQ"
             if is_np(f, "ones_like") and len(e.args) == 1 and list(kw) == ["dtype"] and ast.unparse(kw["dtype"]) == "np.float64":
@@ -449,6 +457,27 @@ class TrQ:
                 return f"(draw {self.draws - 1} {n})", "VQ"
             if is_np(f, "sum") and len(e.args) == 1 and not kw and isinstance(e.args[0], ast.Name) and self.env.get(e.args[0].id) == "MB":
                 return f"(NpQ.countTrue {e.args[0].id})", "N"
+            if is_np(f, "isinf") and len(e.args) == 1 and not kw:
+                x, k = self.E(e.args[0])
+                if k == "S1":
+                    return f"(NpQ.isinf {x})", "B"
+                if k == "VQ":
+                    return f"(NpQ.visinf {x})", "MBQ"
+                raise NotRecognised("isinf operand")
+            if isinstance(f, ast.Attribute) and f.attr == "astype" and len(e.args) == 1 and ast.unparse(e.args[0]) == "np.float64" and not kw \
+                    and self._kind(f.value) == "MBQ":
+                return self.E(f.value)[0], "VQ"
+            if isinstance(f, ast.Name) and f.id in self.cfg.get("ext_scalar_fn", {}) and not e.args:
+                lean, names = self.cfg["ext_scalar_fn"][f.id]
+                if sorted(kw) != sorted(names):
+                    raise NotRecognised(f"arguments of {f.id}")
+                args = []
+                for nm in names:
+                    x, k = self.E(kw[nm])
+                    if k != "VQ":
+                        raise NotRecognised(f"argument kind of {f.id}")
+                    args.append(x)
+                return f"({lean} " + " ".join(args) + ")", "S1"
             if (is_np(f, "max") or is_np(f, "min")) and len(e.args) == 1 and not kw:
                 x, k = self.E(e.args[0])
                 if k != "VQ":
@@ -564,10 +593,89 @@ class TrQ:
                 + f"def {cfg['name']} " + " ".join(params) + f" : Option ({ret_ty}) := do\n" + "\n".join(self.lines) + "\n\nend TFV.Generated.Src\n")
 
 
+class TrQM(TrQ):
+    """branching mode: nested `if` with early `return`, names re-assigned inside branches (Lean `do` with `let mut`)"""
+
+    def cond(self, t):
+        if isinstance(t, ast.Call) and isinstance(t.func, ast.Name) and t.func.id == "len" and len(t.args) == 1:
+            x, k = self.E(t.args[0])
+            if k != "VQ":
+                raise NotRecognised("len of a non-vector")
+            return f"{x}.length ≠ 0"
+        if isinstance(t, ast.Compare) and len(t.ops) == 1 and isinstance(t.ops[0], (ast.Gt, ast.Lt, ast.Eq)):
+            (a, ka), (b, kb) = self.E(t.left), self.E(t.comparators[0])
+            if ka not in ("S", "S1") or kb not in ("S", "S1"):
+                raise NotRecognised("condition kinds")
+            return f"{a} {'>' if isinstance(t.ops[0], ast.Gt) else '<' if isinstance(t.ops[0], ast.Lt) else '='} {b}"
+        x, k = self.E(t)
+        if k == "B":
+            return f"{x} = true"
+        raise NotRecognised("condition " + ast.unparse(t)[:40])
+
+    def block(self, stmts, ind):
+        for st in stmts:
+            self.ind = ind
+            if isinstance(st, ast.Expr) and isinstance(st.value, ast.Constant):
+                continue
+            if isinstance(st, ast.Return) and st.value is not None:
+                x, k = self.E(st.value)
+                if k != self.cfg["ret"]:
+                    raise NotRecognised("returned kind")
+                self.lines.append(f"{ind}return {x}")
+                continue
+            if isinstance(st, ast.Assign) and len(st.targets) == 1 and isinstance(st.targets[0], ast.Name):
+                x, k = self.E(st.value)
+                v = st.targets[0].id
+                if v in self.declared:
+                    if self.env[v] != k:
+                        raise NotRecognised(f"{v} changes kind")
+                    self.lines.append(f"{ind}{v} := {x}")
+                else:
+                    self.lines.append(f"{ind}let mut {v} := {x}")     # (a name first assigned inside a branch is local to that branch)
+                    self.declared.add(v)
+                    self.env[v] = k
+                continue
+            if isinstance(st, ast.If):
+                c = self.cond(st.test)
+                self.lines.append(f"{ind}if {c} then")
+                for branch, kw_ in ((st.body, None), (st.orelse, "else")):
+                    if not branch:
+                        continue
+                    if kw_:
+                        self.lines.append(f"{ind}{kw_}")
+                    saved = (set(self.declared), dict(self.env))
+                    self.block(branch, ind + "  ")
+                    self.declared, self.env = saved[0], {k_: v_ for k_, v_ in self.env.items() if k_ in saved[1]}
+                continue
+            raise NotRecognised("statement " + ast.unparse(st)[:60])
+
+    def render(self):
+        cfg = self.cfg
+        plist = cfg["params"]
+        if [a.arg for a in self.fn.args.args if a.arg != "self"] != [p for p, _ in plist]:
+            raise NotRecognised("parameters")
+        assigned = {t.id for st in ast.walk(self.fn) if isinstance(st, ast.Assign) for t in st.targets if isinstance(t, ast.Name)}
+        self.declared = set()
+        for p, _ in plist:
+            if p in assigned:
+                self.lines.append(f"  let mut {p} := {p}")
+                self.declared.add(p)
+        body = list(self.fn.body)
+        if not body or not isinstance(body[-1], ast.Return):
+            raise NotRecognised("the function does not end in a return")
+        self.block(body, "  ")
+        lean_k = {"VQ": "List Rat", "S1": "Rat"}
+        fnp = [f"({lean} : " + " → ".join(["List Rat"] * len(names)) + " → Rat)" for lean, names in cfg.get("ext_scalar_fn", {}).values()]
+        params = fnp + [f"({p} : {lean_k[k_]})" for p, k_ in plist]
+        return ("/- GENERATED by harness/extract/np2lean.py from src/thefittest/" + cfg["file"] + f" ({cfg['cls']}.{cfg['func']}) — do not edit -/\n"
+                + "import TFV.Model.NpQ\nnamespace TFV.Generated.Src\nopen TFV\n\n"
+                + f"def {cfg['name']} " + " ".join(params) + " : Option Rat := do\n" + "\n".join(self.lines) + "\n\nend TFV.Generated.Src\n")
+
+
 def translate(repo: Path, cfg: dict) -> str:
     src = (repo / "src" / "thefittest" / cfg["file"]).read_text()
     fn = find_method(ast.parse(src), cfg["cls"], cfg["func"])
-    return (TrQ if cfg in NPQ_KERNELS else Tr)(fn, cfg).render()
+    return (TrQM if cfg.get("branching") else TrQ if cfg in NPQ_KERNELS else Tr)(fn, cfg).render()
 
 
 def main(repo="/repo", out="/verif/lean/TFV/Generated/Src", only=None):
